@@ -65,3 +65,68 @@ def cluster(case, res):
         S.shutdown()
         return S.ops[:10]
     sim_case(case, res, body)
+
+
+@scenario("slowsub")
+def slowsub(case, res):
+    """a subscriber that reads slowly but never so slowly that the daemon's write buffer overflows: once it has caught up, its
+    replica (and the byte stream it received) must be complete - nothing may get lost between the write buffer and the kernel"""
+    import json as _json
+    prm = case.get("params", {})
+
+    def body(S, rng):
+        wbuf = int(S.cfg.get("CONFIG_MAX_WRITE_BUFFER_SIZE", 5120))
+        subs = []
+        for i in range(rng.choice([1, 2])):
+            c = S.connect("sub%d" % i, rng.choice(["raw", "uds", "ws"]))
+            if c.transport == "ws":
+                S.handshake(c)
+            S.request(c, "fetch", {"id": "f%d" % i, "path": {"startsWith": rng.choice(["s/", "s/", ""])}})
+            subs.append(c)
+        own = S.connect("own", rng.choice(["raw", "uds"]))
+        paths = ["s/%d" % i for i in range(4)]
+        for pth in paths[:2]:
+            S.request(own, "add", {"path": pth, "value": 0})
+        S.settle()
+        for rnd in range(prm.get("rounds", 4)):
+            v = rng.choice(subs)
+            v.slow = True
+            S.sim.wpol(v.fd, budget=rng.choice([0, 0, 1, 7, 50, 200]), cap=rng.choice([-1, -1, 1, 3, 40]))
+            limit = rng.choice([wbuf // 8, wbuf // 4, wbuf // 2])
+            total = 0
+            S.sig("slow-round", v.transport, wbuf // limit)
+            while True:
+                n = rng.choice([0, 1, 10, 40] if wbuf >= 1024 else [0, 1, 5])
+                pth = rng.choice(paths)
+                cost = 2 * (n + 90)            # generous: frame of the notification, twice if the fetch rules overlap
+                if total + cost > limit:
+                    break
+                total += cost
+                if pth in S.elements:
+                    if rng.random() < 0.8:
+                        S.request(own, "change", {"path": pth, "value": "v" * n})
+                    else:
+                        S.request(own, "remove", {"path": pth})
+                else:
+                    S.request(own, "add", {"path": pth, "value": "v" * n})
+                if rng.random() < 0.6:
+                    S.settle()              # the next frame meets output that is already parked
+                if rng.random() < 0.3:
+                    S.sim.wpol(v.fd, budget=rng.choice([1, 5, 30, 100]))
+            S.settle()
+            for r in [rng.choice([1, 3, 20, 90]) for _ in range(rng.randrange(0, 4))]:
+                S.sim.wpol(v.fd, budget=r)
+                S.settle()
+            S.sim.wpol(v.fd, budget=-1, cap=-1)
+            S.settle()
+            S.settle()
+            v.slow = False
+            if v.closed:
+                S.v("conn/slow-subscriber-dropped-below-the-buffer-limit", "%s after about %d bytes of notifications" % (v.name, total))
+                break
+            S.settle()      # caught up: byte stream equal to what was generated, replica exact
+        st = S.close_all()
+        S.check_idle_baseline(st)
+        S.shutdown()
+        return S.ops[:10]
+    sim_case(case, res, body)
